@@ -121,3 +121,58 @@ func identObj(p *packages.Package, e ast.Expr) types.Object {
 	}
 	return p.TypesInfo.Defs[id]
 }
+
+// funcDeclOf finds the declaration of a function object of package p.
+func funcDeclOf(p *packages.Package, fn *types.Func) *ast.FuncDecl {
+	for _, f := range p.Syntax {
+		for _, d := range f.Decls {
+			if fd, ok := d.(*ast.FuncDecl); ok && p.TypesInfo.Defs[fd.Name] == types.Object(fn) {
+				return fd
+			}
+		}
+	}
+	return nil
+}
+
+// stringSwitchesDeep: the string switches of fd and of the functions of the same package it calls (to the given depth):
+// a dispatch that was moved into a helper is still found.
+func stringSwitchesDeep(p *packages.Package, fd *ast.FuncDecl, depth int) []*switchInfo {
+	seen := map[*ast.FuncDecl]bool{}
+	var out []*switchInfo
+	var visit func(fd *ast.FuncDecl, d int)
+	visit = func(fd *ast.FuncDecl, d int) {
+		if fd == nil || fd.Body == nil || seen[fd] {
+			return
+		}
+		seen[fd] = true
+		out = append(out, stringSwitches(p, fd.Body)...)
+		if d <= 0 {
+			return
+		}
+		ast.Inspect(fd.Body, func(n ast.Node) bool {
+			var id *ast.Ident
+			switch x := n.(type) {
+			case *ast.CallExpr:
+				switch f := ast.Unparen(x.Fun).(type) {
+				case *ast.Ident:
+					id = f
+				case *ast.SelectorExpr:
+					id = f.Sel
+				}
+			case *ast.SelectorExpr: // method value
+				id = x.Sel
+			case *ast.Ident: // function value
+				id = x
+			}
+			if id == nil {
+				return true
+			}
+			if fn, ok := p.TypesInfo.Uses[id].(*types.Func); ok && fn.Pkg() == p.Types {
+				visit(funcDeclOf(p, fn), d-1)
+			}
+			return true
+		})
+	}
+	visit(fd, depth)
+	return out
+}
